@@ -486,6 +486,14 @@ func writeEvidence(path, pid, tier string, seed int, results []*FuncResult, all 
 		if r.Abort != "" {
 			f["aborted"] = r.Abort
 		}
+		if len(r.Contract.Requires) > 0 {
+			// preconditions are obligations at verified call sites and assumptions about every other caller
+			var reqs []string
+			for _, c := range r.Contract.Requires {
+				reqs = append(reqs, c.Text)
+			}
+			f["requires"] = reqs
+		}
 		if len(r.Notes) > 0 {
 			f["abstractions"] = r.Notes
 		}
